@@ -77,3 +77,12 @@ func (s Sample) StdDev() float64 { return s.Values[0] }
 func AbsoluteGuard(a, b Sample) bool {
 	return a.StdDev() < 1e-9 && b.Values[0]*b.StdDev() > 2.5
 }
+
+// ForwardDigits: positive control for the digit-order rule (C16/R8): least-significant digit first, appended in that order.
+func ForwardDigits(i int) string {
+	var buf []byte
+	for ; i > 0; i /= 10 {
+		buf = append(buf, byte('0'+i%10))
+	}
+	return string(buf)
+}
